@@ -216,6 +216,7 @@ theorem body_safe (C : Covers) (R : Refines) (i : Input) : Safe (body i) := by
   cases i with
   | int n => exact epoch_safe C _ _ (Safe.ok _)
   | npInt n => exact epoch_safe C _ _ (Safe.ok _)
+  | num ty n => exact epoch_safe C _ _ (Safe.ok _)
   | float b => exact epoch_safe C _ _ (intOfFloat_safe C b)
   | npFloat b => exact epoch_safe C _ _ (intOfFloat_safe C b)
   | str s => exact strBody_safe C R s
